@@ -981,7 +981,8 @@ Inductive dg_event :=
 | EvSock (k : nat) (op : sop)       (* an application call on socket k (never OpProcess / OpDispatch) *)
 | EvInject (f : frame_in)
 | EvBudget (b : option Z)
-| EvPoll (t : Z).
+| EvPoll (t : Z)
+| EvRemove (k : nat).                (* SocketSet::remove(handle): the slot stays, empty *)
 
 Inductive dg_obs :=
 | ObsSock (r : sres)
@@ -995,6 +996,10 @@ Fixpoint sset_update (ss : sset) (k : nat) (s : sock) : sset :=
   | x :: rest, S k' => x :: sset_update rest k' s
   end.
 
+(* an emptied slot of the SocketSet: the iterators skip it; modelled by a socket that accepts
+   nothing (no IP version is 0) and has nothing queued and no room *)
+Definition sock_removed : sock := SRaw (raw_new (Some 0) None (pq_new 0 0) (pq_new 0 0)).
+
 Definition dg_step (ev : env) (st : iface) (ss : sset) (e : dg_event) : outcome (iface * sset * dg_obs) :=
   match e with
   | EvSock k op =>
@@ -1006,6 +1011,7 @@ Definition dg_step (ev : env) (st : iface) (ss : sset) (e : dg_event) : outcome 
       end
   | EvInject f => Ok (if_set_rxq st (if_rxq st ++ [f]), ss, ObsNone)
   | EvBudget b => Ok (if_set_budget st b, ss, ObsNone)
+  | EvRemove k => Ok (st, sset_update ss k sock_removed, ObsNone)
   | EvPoll t =>
       do '(st', ss') <- if_poll ev (if_set_out st []) ss t;
       Ok (if_set_out st' [], ss', ObsFrames (if_out st'))
